@@ -44,8 +44,11 @@ class CreateDatabase(ASTNode):
             replace_str = f' OR REPLACE'
 
         engine_str = ''
-        if self.engine:
-            engine_str = f'ENGINE = {repr(self.engine)} '
+        if self.engine is not None:
+            # the engine name is a string constant (repr() wrote a newline as \\n and chose its own quotes; an empty
+            # name is still a name)
+            from mindsdb_sql.parser.ast.select.constant import Constant
+            engine_str = f'ENGINE = {Constant(str(self.engine)).to_string()} '
 
         parameters_str = ''
         if self.parameters is not None:
